@@ -125,7 +125,7 @@ type c01Deviation struct {
 var c01ExtraLines = []string{"groups: []", "name: other", "interval: 1m", "query_offset: 1m", "limit: 5", "labels: {extra: x}", "labels: {}",
 	"rules: []", "partial_response_strategy: warn", "source_tenants: [a]", "alert: Extra", "record: extra:rule", "expr: up",
 	"for: 5m", "for: 0s", "keep_firing_for: 1m", "keep_firing_for: 0s", "annotations: {extra: x}", "annotations: {}", "annotations: ~",
-	"for: ~", "keep_firing_for: ~", "<<: {for: 5m}"}
+	"for: ~", "keep_firing_for: ~", "<<: {for: 5m}", "<<: *mk", "<<: *mk\n<<: *mk2"}
 var c01ExtraHomes = []string{"groups", "gname", "alert", "record"}
 
 // op "alias": the value of the slot is an alias; the anchors (one per kind of node) are defined by a first, valid group.
@@ -146,6 +146,17 @@ var c01AnchorGroup = `- name: anchors
     expr: up
 `
 var c01Anchors = []string{"e", "d", "l", "s", "a", "t", "gl", "r"}
+
+// anchors for the merge-key lines of the "extra" stratum: two mappings with disjoint keys that are rule fields
+var c01MergeAnchorGroup = `- name: mergeanchors
+  rules:
+  - alert: MergeAnchors
+    expr: up == 0
+    labels: &mk
+      for: 5m
+    annotations: &mk2
+      keep_firing_for: 1m
+`
 
 // op "names": several groups with the given names (relations between siblings: duplicates adjacent or not).
 var c01NamePatterns = []string{"a,a", "a,b,a", "a,b,b", "a,b,c,a", "a,b,c", "a,b,c,b"}
@@ -183,7 +194,9 @@ func c01Render(dev c01Deviation) string {
 			}
 			if dev.op == "extra" && slot != "" && slot == dev.slot && slot != "groups" {
 				ind := len(l) - len(strings.TrimLeft(l, " -"))
-				out = append(out, strings.Repeat(" ", ind)+dev.shape)
+				for _, el := range strings.Split(dev.shape, "\n") {
+					out = append(out, strings.Repeat(" ", ind)+el)
+				}
 			}
 		}
 		return out
@@ -235,6 +248,9 @@ func c01Render(dev c01Deviation) string {
 						line = subst(group, depth+1)
 						if dev.op == "alias" {
 							line = strings.TrimSuffix(c01AnchorGroup, "\n") + "\n" + line
+						}
+						if dev.op == "extra" && strings.Contains(dev.shape, "*mk") {
+							line = strings.TrimSuffix(c01MergeAnchorGroup, "\n") + "\n" + line
 						}
 					} else {
 						line = subst(rules, depth+1)
